@@ -307,7 +307,8 @@ way: encoding/json keeps the LAST of two members with one name, gjson / sjson se
 DROPS the escape of a lone surrogate where the decoders read U+FFFD; encoding/json rewrites invalid UTF-8
 in member names to U+FFFD.  The gate walks the gjson view of the whole message (every depth, the
 `signatures` and `unsigned` members included): no object may have two members whose decoded names are equal,
-and in every string and member name the surrogate escapes must come in proper pairs.  `VerifyJSON`
+and in every string and member name the surrogate escapes must come in proper pairs (VerifyJSON: everywhere but
+inside the value of the top-level `unsigned` member, `pruneUnsigned`).  `VerifyJSON`
 (`requireUTF8 = true`) also demands that every string and member name is valid UTF-8 (`checkStrictString` =
 `rawStringWellFormed`); `SignJSON` does not — `PDU.Sign` panics when signing fails, and the event constructors
 accept events with invalid UTF-8 in fields that redaction keeps — so on such input it behaves as before.
@@ -328,17 +329,66 @@ def pairedOkMembers : List (Bytes × Bytes × PVal) → Bool
   | (raw, _, v) :: kvs => surrogatesPaired raw && pairedOk v && pairedOkMembers kvs
 end
 
-/-- `checkStrictJSON(message, true) == nil`: the gate of VerifyJSON -/
-def strictJSON (t : Bytes) : Bool :=
-  match parse t with
-  | none => false                       -- gjson.ValidBytes
-  | some p => p.wellFormed && p.noDupKeys
+/-! ### The depth limit (`json.Valid`, the first statement of `checkStrictJSON`)
 
-/-- `checkStrictJSON(message, false) == nil`: the gate of SignJSON (no UTF-8 clause) -/
+The gate begins with `json.Valid(message)`: encoding/json's scanner is a loop over the bytes with an explicit state
+stack and refuses a text whose arrays / objects are nested deeper than 10000 (`maxNestingDepth`).  Only then do
+`gjson.ValidBytes` (recursive) and the one-pass walk for duplicate names / ill-formed strings run, so nothing that
+recurses ever sees a text nested deeper than that.  (Between fix 185cb68 and its repair the recursive walk came
+FIRST: 8 000 000 opening brackets ended the process with a stack overflow, 100 000 took 20 s.)  `depthOk` is that
+bound on its own: a linear scan counting the brackets outside strings.  On a text that is not JSON its answer does
+not matter — such a text is refused by the grammar check (`parse`) with the same error. -/
+
+/-- encoding/json: `maxNestingDepth` -/
+def maxNestingDepth : Nat := 10000
+
+/-- no array / object of the text is nested deeper than `limit`: `d` = current depth, `inStr` = inside a string,
+    `esc` = right after a backslash inside a string -/
+def depthWithin (limit : Nat) : Bytes → (d : Nat) → (inStr esc : Bool) → Bool
+  | [], _, _, _ => true
+  | c :: cs, d, true, esc =>
+    if esc then depthWithin limit cs d true false
+    else if c == 0x5C then depthWithin limit cs d true true
+    else if c == 0x22 then depthWithin limit cs d false false
+    else depthWithin limit cs d true false
+  | c :: cs, d, false, _ =>
+    if c == 0x22 then depthWithin limit cs d true false
+    else if c == 0x7B || c == 0x5B then (if d + 1 > limit then false else depthWithin limit cs (d + 1) false false)
+    else if c == 0x7D || c == 0x5D then depthWithin limit cs (d - 1) false false
+    else depthWithin limit cs d false false
+
+/-- `json.Valid` does not fail on account of the nesting depth -/
+def depthOk (t : Bytes) : Bool := depthWithin maxNestingDepth t 0 false false
+
+/-- The message as VerifyJSON's gate looks at it: the VALUE of a top-level member named exactly `unsigned` is not
+    looked into (`jsonWalk.skipMember`) — it is not signed, VerifyJSON reads nothing of it, and a signed object has
+    to verify whatever `unsigned` is changed to.  The member's NAME is still one of the top-level names. -/
+def pruneUnsigned : PVal → PVal
+  | .obj kvs => .obj (kvs.map (fun m => if m.2.1 == kUnsigned then (m.1, m.2.1, PVal.null) else m))
+  | p => p
+
+/-- `checkStrictJSON(message, true, true) == nil`: the gate of VerifyJSON -/
+def strictJSON (t : Bytes) : Bool :=
+  depthOk t &&                            -- json.Valid: the depth limit
+  match parse t with
+  | none => false                         -- json.Valid / gjson.ValidBytes: the grammar
+  | some p => (pruneUnsigned p).wellFormed && (pruneUnsigned p).noDupKeys
+
+/-- `checkStrictJSON(message, false, false) == nil`: the gate of SignJSON (no UTF-8 clause; the whole message, the
+    inside of `unsigned` included: SignJSON re-emits it) -/
 def signStrictJSON (t : Bytes) : Bool :=
+  depthOk t &&
   match parse t with
   | none => false
   | some p => pairedOk p && p.noDupKeys
+
+/-- the whole message is one definite value for every reader (what the gate of VerifyJSON demanded before the value of
+    `unsigned` was exempted): implies both gates, `V.C02.strict_signStrict` -/
+def wholeStrictJSON (t : Bytes) : Bool :=
+  depthOk t &&
+  match parse t with
+  | none => false
+  | some p => p.wellFormed && p.noDupKeys
 
 /-- the error of the gate (any error of SignJSON / VerifyJSON before the signature is looked at) -/
 def errAmbiguous : Err := .other "json"
@@ -346,15 +396,19 @@ def errAmbiguous : Err := .other "json"
 /-- Model of `SignJSON(name, kid, sk, message)` on the message TEXT: the gate, then `signJSON` on the value
     the text denotes. -/
 def signJSONText (S : SigScheme) (name kid : Bytes) (sk : S.SK) (t : Bytes) : Except Err JVal :=
+  if !depthOk t then .error errAmbiguous else
   match parse t with
   | none => .error errAmbiguous
   | some p => if !(pairedOk p && p.noDupKeys) then .error errAmbiguous else signJSON S name kid sk p.toJVal
 
 /-- Model of `VerifyJSON(name, kid, pk, message)` on the message TEXT. -/
 def verifyJSONText (S : SigScheme) (name kid pk : Bytes) (t : Bytes) : Except Err Unit :=
+  if !depthOk t then .error errAmbiguous else
   match parse t with
   | none => .error errAmbiguous
-  | some p => if !(p.wellFormed && p.noDupKeys) then .error errAmbiguous else verifyJSON S name kid pk p.toJVal
+  | some p =>
+    if !((pruneUnsigned p).wellFormed && (pruneUnsigned p).noDupKeys) then .error errAmbiguous
+    else verifyJSON S name kid pk p.toJVal
 
 /-! ## Specification (what C02 demands, written without the glue)
 
